@@ -289,6 +289,108 @@ export const REWRITES = {
     p.decls = p.decls.map((x) => (x.name === d.name ? { d: "alias", name: d.name, params: [], t: A.inter([...x.ext, A.obj(x.props)]), doc: x.doc } : x));
     return p;
   },
+  intersectWithSupertype(prog, rng) {
+    // T  ->  W & T  where W is a new alias that every value of T satisfies: a subset of T's
+    // properties, literal-typed ones widened (one more literal, `| undefined`), some made optional.
+    // The intersection with a supertype has exactly the values of T. (Only references that stand as
+    // union members, property / element types or parser types are replaced - not operands of
+    // utility types.)
+    const cands = prog.decls.filter((d) => (d.d === "alias" ? d.t.k === "obj" && !d.t.index : d.d === "iface" && !d.index && !(d.ext || []).length) && !(d.params || []).length && (d.d === "alias" ? d.t.props : d.props).length > 0 && !reachesItself(prog, d.name));
+    if (!cands.length) return null;
+    const d = rng.pick(cands);
+    const props = d.d === "alias" ? d.t.props : d.props;
+    const isStrLits = (t) => (t.k === "lit" && typeof t.v === "string") || (t.k === "union" && t.ts.every((m) => m.k === "lit" && typeof m.v === "string"));
+    const kept = props.filter((q) => isStrLits(q.t) || rng.chance(0.5));
+    if (!kept.length) return null;
+    const wname = freshName(prog, rng.chance(0.5) ? "AW" : "ZW");
+    const wprops = kept.map((q) => {
+      let t = q.t;
+      if (isStrLits(t)) {
+        const members = t.k === "union" ? t.ts : [t];
+        t = rng.wpick([
+          [3, () => A.union([...members, A.kw("undefined")])],
+          [2, () => A.union([...members, A.lit("zz_w")])],
+          [2, () => t],
+          [1, () => A.union([A.kw("undefined"), ...members, A.lit("zz_w")])],
+        ])();
+      }
+      return { ...q, t, opt: q.opt || rng.chance(0.3), doc: undefined };
+    });
+    let n = 0;
+    const wrap = (x) => {
+      n++;
+      return rng.chance(0.5) ? A.inter([A.ref(wname), x]) : A.inter([x, A.ref(wname)]);
+    };
+    const isT = (x) => x.k === "ref" && x.name === d.name && !(x.args || []).length;
+    const shallow = (t, depth = 0) => {
+      if (depth > 6) return t;
+      if (isT(t)) return rng.chance(0.7) ? wrap(t) : t;
+      if (t.k === "union") return { ...t, ts: t.ts.map((m) => shallow(m, depth + 1)) };
+      if (t.k === "arr") return { ...t, el: shallow(t.el, depth + 1) };
+      if (t.k === "obj") return { ...t, props: t.props.map((q) => ({ ...q, t: shallow(q.t, depth + 1) })) };
+      return t;
+    };
+    const p = clone(prog);
+    p.decls = p.decls.map((x) => (x.name === d.name || (x.params || []).length ? x : x.d === "alias" ? { ...x, t: shallow(x.t) } : x.d === "iface" ? { ...x, props: x.props.map((q) => ({ ...q, t: shallow(q.t) })) } : x));
+    p.parsers = p.parsers.map((x) => ({ ...x, t: shallow(x.t) }));
+    if (!n) return null;
+    const at = p.decls.findIndex((x) => x.name === d.name);
+    p.decls.splice(at + 1, 0, { d: "alias", name: wname, params: [], t: A.obj(wprops) });
+    return p;
+  },
+  intersectMemberWithSupertype(prog, rng) {
+    // the same for an INLINE object member of a union (typically a tagged one): m -> W & m, where the
+    // new alias W repeats some of m's properties with wider types
+    const isStrLits = (t) => (t.k === "lit" && typeof t.v === "string") || (t.k === "union" && t.ts.every((m) => m.k === "lit" && typeof m.v === "string"));
+    const sites = [];
+    const scan = (t, depth = 0) => {
+      if (depth > 8 || !t) return;
+      if (t.k === "union") {
+        const objs = t.ts.filter((m) => m.k === "obj" && !m.index && m.props.some((q) => isStrLits(q.t)));
+        if (objs.length >= 2) sites.push(t);
+        t.ts.forEach((m) => scan(m, depth + 1));
+      } else if (t.k === "arr") scan(t.el, depth + 1);
+      else if (t.k === "obj") t.props.forEach((q) => scan(q.t, depth + 1));
+    };
+    const p = clone(prog);
+    p.decls.forEach((d) => {
+      if ((d.params || []).length) return;
+      if (d.d === "alias") scan(d.t);
+      if (d.d === "iface") d.props.forEach((q) => scan(q.t));
+    });
+    p.parsers.forEach((x) => scan(x.t));
+    if (!sites.length) return null;
+    const u = rng.pick(sites);
+    const idxs = u.ts.map((m, i) => (m.k === "obj" && !m.index && m.props.some((q) => isStrLits(q.t)) ? i : -1)).filter((i) => i >= 0);
+    const at = rng.pick(idxs);
+    const m = u.ts[at];
+    const wname = freshName(p, rng.chance(0.5) ? "AW" : "ZW");
+    const wprops = m.props
+      .filter((q) => isStrLits(q.t) || rng.chance(0.4))
+      .map((q) => {
+        let t = q.t;
+        if (isStrLits(t)) {
+          const members = t.k === "union" ? t.ts : [t];
+          t = rng.wpick([
+            [4, () => A.union([...members, A.kw("undefined")])],
+            [2, () => A.union([...members, A.lit("zz_w")])],
+            [1, () => t],
+          ])();
+        }
+        return { ...q, t, opt: q.opt || rng.chance(0.2), doc: undefined };
+      });
+    // half of the time the member itself becomes a named type as well (two named parts: their order
+    // inside the intersection is then the order of their names)
+    let part = m;
+    if (rng.chance(0.5)) {
+      const mname = freshName(p, "MW");
+      p.decls.unshift({ d: "alias", name: mname, params: [], t: m });
+      part = A.ref(mname);
+    }
+    u.ts[at] = rng.chance(0.5) ? A.inter([A.ref(wname), part]) : A.inter([part, A.ref(wname)]);
+    p.decls.unshift({ d: "alias", name: wname, params: [], t: A.obj(wprops) });
+    return p;
+  },
   nestLiteralUnion(prog, rng) {
     let n = 0;
     const p = mapAllTypes(prog, (x) => {
